@@ -74,6 +74,7 @@ type monitor struct {
 	handedOut    [maxThreads]bool
 	closeStarted [maxThreads]bool
 	preCleanFail [maxThreads]bool // the cleaner called by this thread's Acquire failed
+	relCleanFail [maxThreads]bool // the cleaner called by this thread's Release failed
 	faulted      [maxThreads]bool // a directory fault was injected (and hit) in the current call
 	rmFaulted    [maxThreads]bool // ... in RemoveAll
 	flags        map[string]bool
@@ -161,6 +162,7 @@ func (m *monitor) feed(w *world, e ev) {
 		m.cleaner = -1
 		m.segCend, m.segCendBy = m.cleanerPhase+" "+e.res, t
 		m.preCleanFail[t] = m.cleanerPhase == "acq" && e.res != "ok"
+		m.relCleanFail[t] = m.cleanerPhase == "rel" && e.res != "ok"
 		m.flags["clean-"+e.res] = true
 	case "admit":
 		m.admit(t)
@@ -236,6 +238,10 @@ func (m *monitor) feed(w *world, e ev) {
 			if m.cleaner == t {
 				m.fail("Release of thread %d returned while its cleaner call is still running", t)
 			}
+			if m.relCleanFail[t] && e.res == "OK" {
+				m.fail("the call of thread %d returned success although a cleaner of the cleaning run after it (1->0) failed: something was left behind unreported", t)
+			}
+			m.relCleanFail[t] = false
 		case "acq":
 			// Acquire failed: only allowed after a cancellation or a failed pre-clean of this thread
 			if e.res == "OK" {
@@ -307,6 +313,8 @@ func (m *monitor) quiescent(w *world, trigger string) {
 		m.dirty = true
 		switch {
 		case m.segCend == "acq ok":
+		case m.segCend == "acq err":
+			m.fail("thread %d was admitted (its Acquire returned nil) although a cleaner of the cleaning run before it failed", m.segAdmitted[0])
 		case m.segCend != "":
 			m.fail("thread %d was admitted although the cleaner call that just finished was %q, not a successful cleaning before an Acquire", m.segAdmitted[0], m.segCend)
 		case m.cleaner0 != -1:
@@ -367,6 +375,8 @@ type hist struct {
 	relTok  [maxThreads]string
 	begun   [maxThreads]bool
 	relE1   [maxThreads]bool
+	acqCode [maxThreads]string // code of the failed cleaning of this thread's Acquire / Release (from Model chained)
+	relCode [maxThreads]string
 	seen    map[int]bool
 	waited  [maxThreads]bool
 	fileSeq int
@@ -374,7 +384,7 @@ type hist struct {
 
 func newHist(drv *hx.Driver) *hist {
 	w := &world{root: map[string]*node{}}
-	w.gate = make(chan bool)
+	w.gate = make(chan string)
 	w.ii = cleaner.NewIdleInvoker(w.cleanerFn)
 	w.runner = runner.NewCleanRunner(fakeRunner{w}, w.ii)
 	h := &hist{w: w, m: newMonitor(), drv: drv, seen: map[int]bool{}}
@@ -503,6 +513,23 @@ func (h *hist) askDir(line, want string) {
 		h.mismatch("BuildDirs correspondence: "+line, tok, want)
 	}
 }
+
+// finPattern: "ok" / "err" (two chained cleaners, both succeed / both fail) or
+// "p" followed by one of o|e per chained cleaner (1..4).
+func finPattern(a string) string {
+	switch {
+	case a == "ok":
+		return "oo"
+	case a == "err":
+		return "ee"
+	case len(a) >= 2 && len(a) <= 5 && a[0] == 'p' && strings.Trim(a[1:], "oe") == "":
+		return a[1:]
+	}
+	return ""
+}
+
+var codeIDs = map[string]string{"OK": "0", "Unavailable": "1", "DeadlineExceeded": "2", "FailedPrecondition": "3", "OutOfRange": "4", "Canceled": "9"}
+var idCodes = map[string]string{"0": "OK", "1": "Unavailable", "2": "DeadlineExceeded", "3": "FailedPrecondition", "4": "OutOfRange", "9": "Canceled"}
 
 func codeOf(err error) string {
 	return status.Code(err).String()
@@ -637,6 +664,9 @@ func (h *hist) enabled(threads int, kinds bool) []string {
 	}
 	if h.m.cleaner != -1 {
 		ops = append(ops, "fin ok", "fin err")
+		if kinds {
+			ops = append(ops, "fin peo")
+		}
 	}
 	return ops
 }
@@ -711,21 +741,39 @@ func (h *hist) exec(op string) bool {
 		h.out.counts["acq-"+kind]++
 		h.start(th)
 	case "fin":
-		if h.m.cleaner == -1 || len(f) < 2 || (f[1] != "ok" && f[1] != "err") {
+		if h.m.cleaner == -1 || len(f) < 2 {
 			return false
 		}
-		h.out.counts["fin-"+f[1]]++
-		w.gate <- f[1] == "ok"
+		pat := finPattern(f[1])
+		if pat == "" {
+			return false
+		}
+		h.out.counts["fin-"+map[bool]string{true: "err", false: "ok"}[strings.Contains(pat, "e")]]++
+		if i := strings.Index(pat, "e"); i >= 0 && !strings.Contains(pat[i:], "o") {
+			h.out.counts["fin-err-tail"]++
+		} else if i >= 0 {
+			h.out.counts["fin-err-then-ok"]++
+		}
+		w.gate <- pat
 	case "cancel":
 		t, ok := thr(1)
-		if !ok || w.th[t] == nil || !w.th[t].busy || h.obs(t) != "wait" || w.th[t].cancelled {
+		if !ok || w.th[t] == nil || !w.th[t].busy || w.th[t].cancelled {
+			return false
+		}
+		switch h.obs(t) {
+		case "wait": // the parked Acquire returns
+			upfront = append(upfront, fmt.Sprintf("cancel %d", t))
+			h.out.flags["cancel"] = true
+		case "in", "cleanA", "cleanR":
+			// no segment of the invoker: the context is what the cleaners of this
+			// thread's (current or next) cleaning run will see
+			h.out.flags["cancel-cleaning"] = true
+		default:
 			return false
 		}
 		w.th[t].cancelled = true
 		w.th[t].cancel()
-		upfront = append(upfront, fmt.Sprintf("cancel %d", t))
 		h.out.counts["cancel"]++
-		h.out.flags["cancel"] = true
 	case "rel":
 		t, ok := thr(1)
 		if !ok || w.th[t] == nil || h.obs(t) != "in" || len(f) < 3 {
@@ -796,6 +844,8 @@ func (h *hist) segment(f []string, upfront []string, cleanerBefore int, waitersB
 	// ---- model side ----
 	// (1) Idle steps of this segment, in the order the log suggests.
 	var items []idleItem
+	cleanCode, chainOK := "", false
+	_ = cleanCode
 	for _, l := range upfront {
 		t, _ := strconv.Atoi(strings.Fields(l)[1])
 		items = append(items, idleItem{line: l, t: t, kind: "fixed", attr: "acq"})
@@ -806,7 +856,40 @@ func (h *hist) segment(f []string, upfront []string, cleanerBefore int, waitersB
 		if h.mphase[cleanerBefore] == "acq" {
 			attr = "acq"
 		}
-		items = append(items, idleItem{line: fmt.Sprintf("done %d %s", cleanerBefore, f[1]), t: cleanerBefore, kind: "fixed", attr: attr})
+		// the chained cleaner: what the individual cleaners answered -> Model chained
+		var outs []string
+		observedRet := ""
+		for _, e := range evs {
+			if e.kind == "sub" {
+				outs = append(outs, codeIDs[e.res])
+			}
+			if e.kind == "chainret" {
+				observedRet = e.res
+			}
+			if e.kind == "cend" {
+				break
+			}
+		}
+		ans := strings.Fields(h.ask("chain " + strings.Join(outs, " ")))
+		if h.tieBroken() || len(ans) != 2 {
+			return
+		}
+		if want := fmt.Sprint(len(finPattern(f[1]))); ans[1] != want || fmt.Sprint(len(outs)) != want {
+			h.mismatch("ChainedCleaner correspondence: number of cleaners invoked (theorem C12.chained_invokes_all)", want+" (model "+ans[1]+")", fmt.Sprint(len(outs)))
+			return
+		}
+		if idCodes[ans[0]] != observedRet {
+			h.mismatch("ChainedCleaner correspondence: result for outcomes ["+strings.Join(outs, " ")+"] (theorems C12.chained_nil_iff / C12.chained_first_error)", idCodes[ans[0]], observedRet)
+			return
+		}
+		cleanCode = idCodes[ans[0]]
+		chainOK = ans[0] == "0"
+		items = append(items, idleItem{line: fmt.Sprintf("done %d %s", cleanerBefore, map[bool]string{true: "ok", false: "err"}[chainOK]), t: cleanerBefore, kind: "fixed", attr: attr})
+		if attr == "acq" {
+			h.acqCode[cleanerBefore] = cleanCode
+		} else {
+			h.relCode[cleanerBefore] = cleanCode
+		}
 		// close(wakeup) wakes every parked Acquire; the order in which they re-take
 		// the lock is the Go scheduler's choice
 		for _, t := range waitersBefore {
@@ -904,7 +987,7 @@ func (h *hist) segment(f []string, upfront []string, cleanerBefore int, waitersB
 
 	// (2) BuildDirs steps, in log order (each root operation is atomic and logged under the fake's lock).
 	if f[0] == "fin" {
-		h.askDir("dclean "+f[1], "ok")
+		h.askDir("dclean "+map[bool]string{true: "ok", false: "err"}[chainOK], "ok")
 	}
 	// directory threads admitted in this segment: begin + name, counter names in issue order
 	type adm struct {
@@ -997,18 +1080,18 @@ func (h *hist) compareReturn(t int, code string) {
 	b := map[bool]string{true: "1", false: "0"}
 	switch {
 	case h.acqTok[t] == "err":
-		want = "Unavailable"
+		want = h.acqCode[t]
 	case h.acqTok[t] == "cancelled":
 		want = "Canceled"
 	case th.kind == "raw":
-		want = map[string]string{"ok": "OK", "err": "Unavailable"}[h.relTok[t]]
+		want = map[string]string{"ok": "OK", "err": h.relCode[t]}[h.relTok[t]]
 	case th.kind == "run" || th.kind == "chk":
 		r := h.ask(fmt.Sprintf("runres %s %s", b[h.relE1[t]], b[h.relTok[t] == "err"]))
-		want = map[string]string{"0": "OK", "1": "Aborted", "2": "Unavailable"}[r]
+		want = map[string]string{"0": "OK", "1": "Aborted", "2": h.relCode[t]}[r]
 	case th.kind == "dir":
 		r := h.ask(fmt.Sprintf("dfin %d %s", t, b[h.relTok[t] == "err"]))
 		tok, _, _ := strings.Cut(r, " | ")
-		want = map[string]string{"ret ok": "OK", "ret internal": "Internal", "ret childErr": "DataLoss", "ret cleanErr": "Unavailable"}[tok]
+		want = map[string]string{"ret ok": "OK", "ret internal": "Internal", "ret childErr": "DataLoss", "ret cleanErr": h.relCode[t]}[tok]
 	}
 	if want != code {
 		h.mismatch(fmt.Sprintf("result of the %s call of thread %d (theorems C12.transitions / C12.close_result)", th.kind, t), want, code)
@@ -1081,7 +1164,7 @@ func (h *hist) finish() {
 		}
 		// let everything run to completion without judging it any further
 		select {
-		case w.gate <- true:
+		case w.gate <- "o":
 		default:
 		}
 		for t := 0; t < maxThreads; t++ {
@@ -1186,7 +1269,12 @@ func randomOp(r *hx.Rand, h *hist, threads int, profile int) string {
 			add(6, op)
 		case h.obs(t) == "wait" && !th.cancelled:
 			add(3, fmt.Sprintf("cancel %d", t))
+		case (h.obs(t) == "cleanA" || h.obs(t) == "cleanR") && !th.cancelled:
+			add(1, fmt.Sprintf("cancel %d", t))
 		case h.obs(t) == "in":
+			if !th.cancelled && r.Chance(1, 4) {
+				add(1, fmt.Sprintf("cancel %d", t))
+			}
 			if th.kind == "dir" && th.dir == nil {
 				continue
 			}
@@ -1198,8 +1286,21 @@ func randomOp(r *hx.Rand, h *hist, threads int, profile int) string {
 	}
 	if h.m.cleaner != -1 {
 		// keep the cleaner running for a while so that others pile up behind it
-		add(5, "fin ok")
-		add(3, "fin err")
+		add(4, "fin ok")
+		add(1, "fin err")
+		// 1..4 chained cleaners: a single failure at a random position, or independent failures
+		k := 1 + r.Intn(4)
+		pat := []byte(strings.Repeat("o", k))
+		if r.Chance(1, 2) {
+			pat[r.Intn(k)] = 'e'
+		} else {
+			for i := range pat {
+				if r.Chance(1, 3) {
+					pat[i] = 'e'
+				}
+			}
+		}
+		add(4, "fin p"+string(pat))
 	}
 	if len(cands) == 0 {
 		return ""
@@ -1208,12 +1309,12 @@ func randomOp(r *hx.Rand, h *hist, threads int, profile int) string {
 }
 
 // malformed ops must be skipped without effect.
-var junk = []string{"", "acq", "acq 9 raw", "acq 0 foo", "fin maybe", "rel 7 0", "cancel x", "write 0", "acq 0 dir zz 0", "rel 0"}
+var junk = []string{"", "acq", "acq 9 raw", "acq 0 foo", "fin maybe", "fin p", "fin pooooo", "fin pxo", "rel 7 0", "cancel x", "write 0", "acq 0 dir zz 0", "rel 0"}
 
 func TestHarness(t *testing.T) {
 	o := hx.ParseFlags()
 	log.SetOutput(io.Discard) // sharedBuildDirectoryCreator logs the injected Remove failures
-	res := hx.NewResult("idle", o, "histories of events (acq t raw|run|chk|dir, fin ok|err, cancel t, rel t, write t) over <=5 threads driving the real IdleInvoker / cleanRunner / shared+clean+root build directory creators in a synctest bubble, one lock-held segment at a time: (a) all event orders of raw Acquire/Release/cancel/cleaner ok|err for 3 threads up to a fixed length, (b) random longer ones with cleaner failures, cancellations and directory faults; non-trivial = at least one Acquire had to wait for a running cleaner and at least one cleaning after a 1->0 transition completed; distinct = hash of the event list")
+	res := hx.NewResult("idle", o, "histories of events (acq t raw|run|chk|dir, fin ok|err, cancel t, rel t, write t) over <=5 threads driving the real IdleInvoker / cleanRunner / shared+clean+root build directory creators in a synctest bubble, one lock-held segment at a time: (a) all event orders of raw Acquire/Release/cancel/cleaner ok|err for 3 threads up to a fixed length, (b) random longer ones with cleaner failures, cancellations and directory faults; the invoker's cleaner is the real NewChainedCleaner over 1-4 instrumented cleaners (fin p<o|e...>: failure at every position, contexts cancelled before/while cleaning); non-trivial = at least one Acquire had to wait for a running cleaner and at least one cleaning after a 1->0 transition completed; distinct = hash of the event list")
 	drv, err := hx.StartDriver("idle")
 	if err != nil {
 		fmt.Fprintln(os.Stderr, "cannot start model driver:", err)
